@@ -260,8 +260,38 @@ def rndRowExpr (st : St Float) (n : Nat) : Gen (Option Expr) := do
 
 /-- propose one random operation (may be illegal; the caller checks with `step`) -/
 def propose (st : St Float) : Gen (Option (Op Float)) := do
-  let c ← rnd 100
-  if c < 6 then
+  let c ← rnd 105
+  if c ≥ 100 then
+    -- guaranteed share: sums / norms / reads over TRANSPOSED proper SUB-BLOCKS (block of transpose, transpose of block),
+    -- on column-ordered owners and on row-ordered ones (a Matrix_ constructed with one row, then grown)
+    let o ← rnd 4
+    match st[o]? with
+    | none => return none
+    | some ob =>
+      if !ob.isOwner then return none
+      if c == 100 && !ob.rowOrder && viewCount st o == 0 then
+        -- make this handle row-ordered: construct it 1×n ...
+        let n ← rnd 5
+        let mut vals : Array Float := #[]
+        for _ in [0:n + 2] do vals := vals.push (← rndVal)
+        return some (.new o 1 (n + 2) vals)
+      if ob.rowOrder && ob.nr < 3 then
+        -- ... and let it grow (the helper, and with it the storage order, survives)
+        let m ← rnd 5; let n ← rnd 5
+        return some (.resizeKeep o (m + 3) (n + 3) (← rndVal))
+      if ob.nr < 3 || ob.nc < 3 then return none
+      let m ← rnd (ob.nr - 2); let n ← rnd (ob.nc - 2)
+      let m := m + 1; let n := n + 1                     -- 1 ≤ m ≤ nr-2, 1 ≤ n ≤ nc-2: strictly smaller
+      let i ← rnd (ob.nr - m); let j ← rnd (ob.nc - n)
+      let i := i + 1; let j := if j + n < ob.nc then j else 0
+      let bt ← rndBool
+      let xs : List XOp := if bt then [.v (.block i j m n), .v .transpose] else [.v .transpose, .v (.block j i n m)]
+      let xs := if (← rnd 4) == 0 then xs ++ [.v .negate] else xs
+      let e : Expr := ⟨o, xs⟩
+      let r ← rnd 5
+      return some (if r == 0 then .sum e else if r == 1 then .nrm2 e else if r == 2 then .norms e else if r == 3 then .read e
+                   else .sum e)
+  else if c < 6 then
     let o ← rnd 8
     let (nr, nc) ← (do
       let a ← rndDim; let b ← rndDim
